@@ -17,7 +17,7 @@ use libc::{close, ftruncate, mmap, munmap, shm_open};
 
 use crate::{Result, StorageError};
 
-use super::control_block::{LOCK_FILE_SUFFIX, SHMEM_FILE_SUFFIX};
+use super::control_block::SHMEM_FILE_SUFFIX;
 
 /// Lock file timeout in seconds.
 const LOCK_TIMEOUT_SECS: u64 = 100;
@@ -193,16 +193,12 @@ impl LockFile {
     /// Retries every 50ms for up to 100 seconds (matching CASC timeout).
     /// Returns `Err` if the timeout expires.
     pub fn acquire(base_path: &Path) -> Result<Self> {
-        let lock_path = base_path.with_extension(base_path.extension().map_or_else(
-            || LOCK_FILE_SUFFIX.to_string(),
-            |ext| {
-                format!(
-                    "{}.{}",
-                    ext.to_string_lossy(),
-                    LOCK_FILE_SUFFIX.trim_start_matches('.')
-                )
-            },
-        ));
+        // The lock file sits next to the shmem file and carries its name plus
+        // ".lock" (`<dir>/shmem` -> `<dir>/shmem.lock`, the path `lock_file_path`
+        // reports; `<name>.shmem` -> `<name>.shmem.lock`).
+        let mut lock_name = base_path.file_name().unwrap_or_default().to_os_string();
+        lock_name.push(".lock");
+        let lock_path = base_path.with_file_name(lock_name);
 
         let timeout = Duration::from_secs(LOCK_TIMEOUT_SECS);
         let retry_interval = Duration::from_millis(LOCK_RETRY_MS);
